@@ -36,6 +36,29 @@ Fixpoint rrun_regs (rs : list reg) (b : builder) : builder :=
 
 Definition plan_rec (rs : list reg) : builder := rrun_regs rs empty_builder.
 
+(* the rejected calls as the recovering run itself meets them: (index of the call, error the builder raised) *)
+Definition add_err (k : nat) (r : result builder) : list (nat * err) :=
+  match r with Ok _ => [] | Err e => [(k, e)] end.
+
+Fixpoint berrs_reg (r : reg) (b : builder) (k : nat) : list (nat * err) :=
+  match r with
+  | RSys tag nm deps reads writes time => add_err k (add b tag nm deps reads writes time)
+  | RBatch tag nm deps cr cw time _ inner =>
+      (fix go (rs : list reg) (bi : builder) (k' : nat) {struct rs} : list (nat * err) :=
+         match rs with
+         | [] => []
+         | r' :: rs' => berrs_reg r' bi k' ++ go rs' (rrun_reg r' bi) (k' + calls_reg r')%nat
+         end) inner empty_builder k
+      ++ (let bi := rrun_regs inner empty_builder in
+          add_err (k + calls_regs inner)%nat (add b tag nm deps (all_reads bi ++ cr) (all_writes bi ++ cw) time))
+  | _ => []
+  end.
+Fixpoint berrs_regs (rs : list reg) (b : builder) (k : nat) : list (nat * err) :=
+  match rs with
+  | [] => []
+  | r :: rs' => berrs_reg r b k ++ berrs_regs rs' (rrun_reg r b) (k + calls_reg r)%nat
+  end.
+
 (* ---- the accepted registrations, by name bookkeeping only (no planner) ---- *)
 Definition call_ok (names : list name) (r : reg) : bool :=
   match r with
